@@ -31,41 +31,29 @@ theorem subMesh_sorted_indices (μ : Mesh) (idxs : List Nat) :
 
 /-- **A1, the induced sub-pattern shades exactly the cells whose whole region is shaded and point
     free**: for every mesh pattern `μ` over a permutation and every strictly increasing in-range choice
-    of points `c`, `sub_mesh_pattern` raises nothing, its pattern is the standardisation of the chosen
-    values and cell `(x, y)` is shaded iff `Spec.SubShaded μ c x y`.
-    The one excluded input — no point chosen from the empty pattern whose only cell is shaded — is a
-    known finding (`subMesh_empty_gap`): there the code returns the unshaded empty pattern. -/
+    of points `c` (the empty choice included), `sub_mesh_pattern` raises nothing, its pattern is the
+    standardisation of the chosen values and cell `(x, y)` is shaded iff `Spec.SubShaded μ c x y`. -/
 theorem subMesh_shading_iff (μ : Mesh) (c : List Nat) (hπ : IsPerm μ.pattern) (hc : StrictInc c)
-    (hr : ∀ i ∈ c, i < μ.pattern.length)
-    (hgap : c ≠ [] ∨ μ.pattern ≠ [] ∨ (0, 0) ∉ μ.shading) :
+    (hr : ∀ i ∈ c, i < μ.pattern.length) :
     ∃ sub, Model.subMeshPattern μ c = .ok sub ∧ sub.pattern = standardize (Spec.pick μ.pattern c) ∧
       ∀ x y, (x, y) ∈ sub.shading ↔ Spec.SubShaded μ c x y := by
-  by_cases hne : c = []
-  · subst hne
-    refine ⟨⟨[], []⟩, by simp [Model.subMeshPattern], by simp [Spec.pick, standardize], fun x y => ?_⟩
-    simp only [List.not_mem_nil, false_iff]
-    intro hs
-    have hx : x = 0 := by have := hs.hx; simpa using this
-    have hy : y = 0 := by have := hs.hy; simpa using this
-    subst hx; subst hy
-    rcases hgap with h | h | h
-    · exact h rfl
-    · have hpos : 0 < μ.pattern.length := List.length_pos_of_ne_nil h
-      exact hs.pointfree 0 hpos (by simp) (by simp [Spec.cellOf])
-    · exact h (hs.shaded 0 0 (Nat.zero_le _) (Nat.zero_le _) (by simp [Spec.countLt]) (by simp [Spec.countLt, Spec.pick]))
-  · obtain ⟨sh, h1, h2⟩ := subMesh_eval μ c hπ hc hne hr
-    exact ⟨_, h1, rfl, h2⟩
+  obtain ⟨sh, h1, h2⟩ := subMesh_eval μ c hπ hc hr
+  exact ⟨_, h1, rfl, h2⟩
 
-/-- the known finding behind the excluded case of `subMesh_shading_iff`: for `μ = (ε, {(0,0)})` and
-    no chosen point the only region is shaded and point free, yet the code returns `MeshPatt()` -/
-theorem subMesh_empty_gap :
-    Spec.SubShaded ⟨[], [(0,0)]⟩ [] 0 0 ∧ Model.subMeshPattern ⟨[], [(0,0)]⟩ [] = .ok ⟨[], []⟩ := by
-  refine ⟨⟨Nat.le_refl _, Nat.le_refl _, ?_, ?_⟩, by simp [Model.subMeshPattern]⟩
-  · intro a b ha hb _ _
-    have ha' : a = 0 := by simpa using ha
-    have hb' : b = 0 := by simpa using hb
-    subst ha'; subst hb'; simp
-  · intro idx hidx; simp at hidx
+/-- regression of a repaired defect: choosing no point of the empty pattern whose only cell is shaded
+    induces that pattern itself (the code used to return the unshaded empty pattern here) -/
+theorem subMesh_empty_shaded :
+    Spec.SubShaded ⟨[], [(0,0)]⟩ [] 0 0 ∧
+    ∃ sub, Model.subMeshPattern ⟨[], [(0,0)]⟩ [] = .ok sub ∧ sub.pattern = [] ∧ (0, 0) ∈ sub.shading := by
+  have hs : Spec.SubShaded ⟨[], [(0,0)]⟩ [] 0 0 := by
+    refine ⟨Nat.le_refl _, Nat.le_refl _, ?_, ?_⟩
+    · intro a b ha hb _ _
+      have ha' : a = 0 := by simpa using ha
+      have hb' : b = 0 := by simpa using hb
+      subst ha'; subst hb'; simp
+    · intro idx hidx; simp at hidx
+  obtain ⟨sub, h1, h2, h3⟩ := subMesh_shading_iff ⟨[], [(0,0)]⟩ [] (by decide) List.Pairwise.nil (by simp)
+  exact ⟨hs, sub, h1, by rw [h2]; rfl, (h3 0 0).mpr hs⟩
 
 /-- the pattern of an induced sub-pattern is a permutation -/
 theorem subMesh_pattern_isPerm (μ : Mesh) (c : List Nat) (hπ : IsPerm μ.pattern) (hc : StrictInc c)
@@ -79,39 +67,31 @@ theorem subMesh_sound (μ : Mesh) (σ : NSeq) (d c : List Nat) (sub : Mesh) (hπ
     (hd : MeshOcc μ σ d) (hc : StrictInc c) (hr : ∀ i ∈ c, i < μ.pattern.length)
     (hsub : Model.subMeshPattern μ c = .ok sub) : MeshOcc sub σ (Spec.compose d c) := by
   have hdl : d.length = μ.pattern.length := hd.occ.len
-  by_cases hne : c = []
-  · subst hne
-    have : sub = ⟨[], []⟩ := by
-      simp only [Model.subMeshPattern, List.mergeSort_nil, if_true, Except.ok.injEq] at hsub
-      exact hsub.symm
-    subst this
-    exact ⟨⟨rfl, List.Pairwise.nil, by simp [Spec.compose], by intro a b ha; simp at ha⟩,
-      by intro i _ _; simp⟩
-  · obtain ⟨sh, h1, h2⟩ := subMesh_eval μ c hπ hc hne hr
-    rw [h1] at hsub
-    simp only [Except.ok.injEq] at hsub
-    subst hsub
-    have hnd := pick_nodup hπ (strictInc_nodup hc) hr
-    have hpl : (Spec.pick μ.pattern c).length = c.length := by simp [Spec.pick]
-    refine ⟨⟨?_, ?_, ?_, ?_⟩, ?_⟩
-    · show (Spec.compose d c).length = (standardize (Spec.pick μ.pattern c)).length
-      rw [compose_length, standardize_length, hpl]
-    · exact compose_strictInc hd.occ.inc hc (by rw [hdl]; exact hr)
-    · exact compose_rng hd.occ.rng (by rw [hdl]; exact hr)
-    · intro a b ha hb
-      have ha' : a < c.length := by
-        have : a < (standardize (Spec.pick μ.pattern c)).length := ha
-        rw [standardize_length, hpl] at this; exact this
-      have hb' : b < c.length := by
-        have : b < (standardize (Spec.pick μ.pattern c)).length := hb
-        rw [standardize_length, hpl] at this; exact this
-      show (standardize (Spec.pick μ.pattern c)).getD a 0 < (standardize (Spec.pick μ.pattern c)).getD b 0 ↔ _
-      rw [standardize_lt_iff hnd (by rw [hpl]; exact ha') (by rw [hpl]; exact hb'),
-        C01.pick_getD _ _ _ ha', C01.pick_getD _ _ _ hb', compose_getD d c ha', compose_getD d c hb']
-      exact hd.occ.iso _ _ (hr _ (getD_mem ha')) (hr _ (getD_mem hb'))
-    · intro i hi hic hmem
-      have hs := (h2 _ _).mp hmem
-      exact cell_transfer μ σ d c _ _ hπ hd hr hs i hi hic rfl
+  obtain ⟨sh, h1, h2⟩ := subMesh_eval μ c hπ hc hr
+  rw [h1] at hsub
+  simp only [Except.ok.injEq] at hsub
+  subst hsub
+  have hnd := pick_nodup hπ (strictInc_nodup hc) hr
+  have hpl : (Spec.pick μ.pattern c).length = c.length := by simp [Spec.pick]
+  refine ⟨⟨?_, ?_, ?_, ?_⟩, ?_⟩
+  · show (Spec.compose d c).length = (standardize (Spec.pick μ.pattern c)).length
+    rw [compose_length, standardize_length, hpl]
+  · exact compose_strictInc hd.occ.inc hc (by rw [hdl]; exact hr)
+  · exact compose_rng hd.occ.rng (by rw [hdl]; exact hr)
+  · intro a b ha hb
+    have ha' : a < c.length := by
+      have : a < (standardize (Spec.pick μ.pattern c)).length := ha
+      rw [standardize_length, hpl] at this; exact this
+    have hb' : b < c.length := by
+      have : b < (standardize (Spec.pick μ.pattern c)).length := hb
+      rw [standardize_length, hpl] at this; exact this
+    show (standardize (Spec.pick μ.pattern c)).getD a 0 < (standardize (Spec.pick μ.pattern c)).getD b 0 ↔ _
+    rw [standardize_lt_iff hnd (by rw [hpl]; exact ha') (by rw [hpl]; exact hb'),
+      C01.pick_getD _ _ _ ha', C01.pick_getD _ _ _ hb', compose_getD d c ha', compose_getD d c hb']
+    exact hd.occ.iso _ _ (hr _ (getD_mem ha')) (hr _ (getD_mem hb'))
+  · intro i hi hic hmem
+    have hs := (h2 _ _).mp hmem
+    exact cell_transfer μ σ d c _ _ hπ hd hr hs i hi hic rfl
 
 /-- **A3, the heart of C06 — mesh-in-mesh containment is sound for every permutation**: whenever
     `ν.occurrences_in(μ)` reports the index tuple `c`, then for *every* permutation `σ` and *every*
@@ -135,10 +115,8 @@ theorem meshInMesh_total (ν μ : Mesh) (hν : IsPerm ν.pattern) (hμ : IsPerm 
   apply inMeshFilter_ok
   intro c hc
   have hocc := ((C03.mem_meshOccInPerm_iff ν μ.pattern hν hμ c).mp hc).occ
-  by_cases hne : c = []
-  · subst hne; exact ⟨⟨[], []⟩, by simp [Model.subMeshPattern]⟩
-  · obtain ⟨sh, h1, _⟩ := subMesh_eval μ c hμ hocc.inc hne hocc.rng
-    exact ⟨_, h1⟩
+  obtain ⟨sh, h1, _⟩ := subMesh_eval μ c hμ hocc.inc hocc.rng
+  exact ⟨_, h1⟩
 
 /-- **reported containment between mesh patterns transfers to every permutation**:
     if `μ.contains(ν)` is reported then every permutation containing `μ` contains `ν` -/
@@ -244,13 +222,12 @@ theorem subMesh_strongest (μ : Mesh) (c : List Nat) (hπ : IsPerm μ.pattern)
     of `μ` (in every permutation) induces an occurrence of `(std, R')` on the corresponding points is
     contained in the shading computed by `sub_mesh_pattern` (cells of the grid only) -/
 theorem subMesh_strongest_shading (μ : Mesh) (c : List Nat) (hπ : IsPerm μ.pattern) (hc : StrictInc c)
-    (hr : ∀ j ∈ c, j < μ.pattern.length) (hgap : c ≠ [] ∨ μ.pattern ≠ [] ∨ (0, 0) ∉ μ.shading)
-    (R' : List Cell)
+    (hr : ∀ j ∈ c, j < μ.pattern.length) (R' : List Cell)
     (hR' : ∀ σ d, IsPerm σ → MeshOcc μ σ d →
       MeshOcc ⟨standardize (Spec.pick μ.pattern c), R'⟩ σ (Spec.compose d c))
     (sub : Mesh) (hsub : Model.subMeshPattern μ c = .ok sub) (x y : Nat) (hx : x ≤ c.length)
     (hy : y ≤ c.length) (hxy : (x, y) ∈ R') : (x, y) ∈ sub.shading := by
-  obtain ⟨sub', h1, _, h3⟩ := subMesh_shading_iff μ c hπ hc hr hgap
+  obtain ⟨sub', h1, _, h3⟩ := subMesh_shading_iff μ c hπ hc hr
   rw [hsub] at h1
   simp only [Except.ok.injEq] at h1
   subst h1
@@ -264,12 +241,11 @@ theorem subMesh_strongest_shading (μ : Mesh) (c : List Nat) (hπ : IsPerm μ.pa
 /-- **completeness of mesh-in-mesh occurrences**: an index tuple `c` whose corresponding points carry
     an occurrence of `ν` in *every* permutation and for *every* occurrence of `μ` is reported by
     `ν.occurrences_in(μ)` (so, with `meshInMesh_sound`, the reported tuples are exactly the
-    semantically valid ones; the excluded input is the known finding of `subMesh_empty_gap`) -/
+    semantically valid ones) -/
 theorem meshInMesh_complete (ν μ : Mesh) (hν : IsPerm ν.pattern) (hμ : IsPerm μ.pattern)
     (hνs : ∀ cell ∈ ν.shading, cell.1 ≤ ν.pattern.length ∧ cell.2 ≤ ν.pattern.length)
     (l : List (List Nat)) (h : Model.meshOccInMesh ν μ = .ok l) (c : List Nat)
     (hr : ∀ j ∈ c, j < μ.pattern.length)
-    (hgap : c ≠ [] ∨ μ.pattern ≠ [] ∨ (0, 0) ∉ μ.shading)
     (hsem : ∀ σ d, IsPerm σ → MeshOcc μ σ d → MeshOcc ν σ (Spec.compose d c)) : c ∈ l := by
   unfold Model.meshOccInMesh at h
   rw [mem_inMeshFilter ν μ _ l h c]
@@ -278,7 +254,7 @@ theorem meshInMesh_complete (ν μ : Mesh) (hν : IsPerm ν.pattern) (hμ : IsPe
     rwa [compose_range hr] at this
   have hc : StrictInc c := hself.occ.inc
   refine ⟨(C03.mem_meshOccInPerm_iff ν μ.pattern hν hμ c).mpr hself, ?_⟩
-  obtain ⟨sub, h1, _, h3⟩ := subMesh_shading_iff μ c hμ hc hr hgap
+  obtain ⟨sub, h1, _, h3⟩ := subMesh_shading_iff μ c hμ hc hr
   refine ⟨sub, h1, ?_⟩
   rw [shadingSubset_iff]
   rintro ⟨x, y⟩ hxy
